@@ -580,9 +580,24 @@ func TestC04ReplayAfterRestart(t *testing.T) {
 		if !aDials {
 			bMsgs = prev.msgs[0]
 		}
-		// A restarts: same identity and configuration, fresh state.
+		// A restarts: same identity and configuration, fresh state. Or A keeps
+		// running and hours pass: the link is long gone, A's session for B
+		// (with the record of the signing times it has seen) has expired and was
+		// cleaned away; its peering manager is the one that made the recorded
+		// connection.
 		vn2 := vnet.New()
 		a2, _ := vn2.AddNode("A'", pool[ia], vnet.NodeOpts{Store: cfg.store()})
+		if c.Bool("hours-pass-instead-of-restart") {
+			a2 = a
+			a.St.VerifAgeSessions(time.Duration(c.Int("hours", 2, 48)) * time.Hour)
+			a.St.VerifCleanSessions()
+			if a.Peer.GetLink(b.IP()) != nil {
+				c.Fatalf("link of the recorded connection still registered after teardown")
+			}
+			c.Class("replay/hours-later-on-the-same-router")
+		} else {
+			c.Class("replay/after-restart")
+		}
 		upTo := c.Int("replay.messages", 1, 3)
 		e := wire.DialOne(a2, aDials)
 		defer func() {
